@@ -519,4 +519,12 @@ structure PrefixSite where
 /-- range delete: every entry whose key starts with `p` is removed (what a clear-by-prefix loop does) -/
 def storeClear {α} (p : Bytes) (st : List (Bytes × α)) : List (Bytes × α) := st.filter (fun kv => !hasPrefix kv.1 p)
 
+/-! ### query path: client gRPC `ConsensusStates` (prefix store "clients/<name>/consensusStates/") -/
+
+/-- key test + height of the `ConsensusStates` handler on a key RELATIVE to "clients/<name>/consensusStates/":
+    a bare consensus-state key is exactly the 16 raw height bytes (whatever bytes they are — 0x2f included); anything
+    longer is metadata stored below a consensus-state key ("…/processedTime") and is skipped -/
+def consQueryKey (k : Bytes) : Option (UInt64 × UInt64) :=
+  if k.length ≠ 16 then none else some (UInt64.ofNat (ofBE (k.take 8)), UInt64.ofNat (ofBE (k.drop 8)))
+
 end TM.Host
